@@ -1571,7 +1571,6 @@ package http2
 //@ loop 4: invariant ring: ringOK(closedRing, closedOldest)
 //@ loop 4: invariant cur: strm != nil && strm.ctx != nil && strm.recvBody >= 0 && !strm.abandoned && (strm.handlerRunning ==> strm.responded)
 
-
 // ---- client: the server's SETTINGS ----
 
 //@ func (*Conn).applyInitialWindow
